@@ -195,3 +195,18 @@ _extend("C13", _SCEN.replace("AES block function, CRC-16 and EC operations", "th
         "Additionally, for 9 enumerated record sequences with symbolic line contents the importer's state machine yields exactly the expected components (ignored sections, page crossing, gaps / overlaps / missing marker rejected).")
 _extend("C14", "dominance rule for the encryptor selector (type test before filter)",
         "Additionally: the selector filter is only applied to encryptors that passed the isinstance test, so mixed decryptor lists cannot raise AttributeError out of the reader.")
+
+_extend("C13", "rendered filter text parsed and compared as a boolean function for every structure of up to 4 entries",
+        "Additionally: per-section version / reboot tags follow the instruction that precedes the section; pfid2_filter_to_str's text is equivalent to the filter bytes for all 170 arrangements of continuation / negation bits over 1..4 entries.")
+_extend("C15", "evaluation of module-level step tables with a GF(2)-affinity test of all 256 entries; syntax-tree rule for state kept between calls",
+        "Additionally: a table-driven implementation is accepted only if its table is the affine extension of its basis entries and the resulting transfer matrix equals the bit-serial step; early returns and global / nonlocal state are violations.")
+_extend("C16", "structural rule for the stream helper loop",
+        "Additionally: encrypt_stream / decrypt_stream feed and write every chunk until an empty read, then the final block; CTR counters carry into every byte.")
+_extend("C17", "loop-record rules for signed-digit scalar multiplication; sympy polynomial identities in both tiers; call-site binding of the validation flag",
+        "Additionally: the precomputed table holds affine doublings of P, every recoding step satisfies k = 2k' + d with d matching the sign of the added point, NAF digits and the NAF walk have the defining shape; decoded coordinates reach the guards unmodified; no call site binds anything but the flag itself to validate_point / verify.")
+_extend("C18", "replay of the HMAC operations of generate_k against RFC 6979 3.2 as terms; provenance of the hash function through sign_deterministic; " + _SCEN.replace("AES block function, CRC-16 and EC operations", "fixed-width integer encoding"),
+        "Additionally: generate_k is the RFC 6979 script (K/V initialisation, the two update rounds with 00 / 01 markers, T built to ceil(qlen/8) octets, acceptance 1 <= k < q, K/V update on rejection), bits2int / bits2octets as defined; message digest and nonce derivation use the same hash; raw signature encodings round-trip for symbolic (r, s), DER encodings on enumerated boundary values.")
+_extend("C19", _SCEN.replace("AES block function, CRC-16 and EC operations", "fixed-width integer encoding") + "; relational normal form of the private-scalar range guard",
+        "Additionally: DER primitives (length field, OCTET STRING, SEQUENCE, constructed, BIT STRING with symbolic content of enumerated lengths; INTEGER and OID on enumerated values) encode as X.690 prescribes and the decoders invert them; public-key raw / uncompressed / DER encodings for symbolic coordinates equal X||Y, 04||X||Y and the RFC 5480 SubjectPublicKeyInfo whose 27-byte prefix bec2format strips; private scalars outside [1, n-1] are refused before the public point is formed.")
+_extend("C20", "class-body scan for shared lock objects",
+        "Additionally: every light switch creates its own mutex in __init__ (a class-level Lock is shared by the read and the write switch).")
